@@ -21,6 +21,12 @@ image_read_file; system codecs through imgdata_stubs.c) and every file must come
 incompressible blocks the extracted glue (pack with a never-shrinking compressor and the same weak xxh32 ->
 file_lkind / frag_table_of / data_of) must PREDICT every inode's blocks_start, size words and fragment
 reference, the fragment table and the bytes of the data area exactly.
+
+Fragment-table leg (coq/C08/FragTable*.v, frag_table_read_replaces_state / imgdata_readback_with_real_frag_loader):
+props/C08/h_fragtab.c drives the working tree's sqfs_frag_table_read / _lookup / _get_size / _append / _set / _write
+on ONE object per case (generated tables, one hostile variant per early exit and error path, sequences of reads on the
+same object) and must print what the extracted object model (props/C08/frag_driver.ml) prints; the state-hygiene
+oracle (fragtab.hygiene) is evaluated on the implementation's answers alone.
 """
 import collections
 import hashlib
@@ -42,6 +48,7 @@ from vlib import sqfsimg
 HERE = os.path.dirname(os.path.abspath(__file__))
 sys.path.insert(0, HERE)
 import gen  # noqa: E402
+import fragtab  # noqa: E402
 
 LEVEL = "proof"
 WEAKHASH = os.path.join(HERE, "weakhash.c")
@@ -717,6 +724,88 @@ def report_imgdata(ctx, found):
 
 
 # --------------------------------------------------------------------------------------------
+# fragment-table leg: frag_table.c as an object with state
+# --------------------------------------------------------------------------------------------
+def fragtab_driver():
+    try:
+        return core.build_model_driver("C08frag", "ExtractC08Frag.v", os.path.join(HERE, "frag_driver.ml"))
+    except RuntimeError as e:
+        if "inconsistent assumptions" not in str(e) and "Cannot find" not in str(e):
+            raise
+    with core.Lock("coq"):
+        core.coq_make(["C08/FragTableModel.vo"])
+    return core.build_model_driver("C08frag", "ExtractC08Frag.v", os.path.join(HERE, "frag_driver.ml"))
+
+
+def fragtab_leg(ctx, info, cases):
+    """cases: [(tag, line)].  Reports violations itself; returns (stats, something_broke)."""
+    t1 = time.time()
+    h = B.compile_harness(info, [os.path.join(HERE, "h_fragtab.c")], "h_fragtab_c08")
+    drv = None
+    try:
+        drv = fragtab_driver()
+    except RuntimeError as e:
+        if not ctx.proof_broken:
+            raise
+        ctx.notes.append("fragment-table model driver not built (proofs broken): tie skipped, hygiene oracle still run: %s"
+                         % str(e)[-300:])
+    data = ("\n".join(l for _, l in cases) + "\n").encode()
+    # a table size beyond what malloc grants must come back as SQFS_ERROR_ALLOC, not as an ASan abort
+    env = dict(os.environ, **dict(ASAN_ENV, ASAN_OPTIONS=ASAN_ENV["ASAN_OPTIONS"] + ":allocator_may_return_null=1"))
+    with ThreadPoolExecutor(max_workers=2) as ex:
+        fi = ex.submit(run_lines, h, data, env, 150)
+        fm = ex.submit(run_lines, drv, data, None, 150) if drv else None
+        rc, li, err = fi.result()
+        rm, lm, errm = fm.result() if fm else (0, [], "")
+    li = [l for l in li if l != ""] if rc == 0 else li[:-1] if li and li[-1] == "" else li
+    lm = [l for l in lm if l != ""]
+    stats = dict(cases=len(cases), hostile=sum(1 for t, _ in cases if t not in ("good", "write", "reload", "good->good")),
+                 two_reads_same_object=sum(1 for t, _ in cases if "->" in t), tie_mismatches=0, hygiene_failures=0)
+    broke = False
+    if rc != 0 or len(li) < len(cases):
+        # the harness died: the first case without an answer line is the one
+        k = min(len([l for l in li if l != ""]), len(cases) - 1)
+        tag, cl = cases[k]
+        m = re.search(r"ERROR: AddressSanitizer[^\n]*(?:\n[^\n]*){0,6}", err)
+        ctx.violation("fragtab-crash", "fragment-table harness died (rc=%d) in case %d (%s): sqfs_frag_table_read / lookup / "
+                      "append / write on a generated table: %s" % (rc, k, tag, m.group(0)[:900] if m else err[-700:]),
+                      dict(kind="fragtab", cases=[[tag, cl]], stderr=err[-3000:]))
+        return stats, True
+    if drv and (rm != 0 or len(lm) != len(cases)):
+        raise RuntimeError("C08 fragment-table model driver failed rc=%d: %s" % (rm, errm[-400:]))
+    hyg = []
+    tie = []
+    for k, (tag, cl) in enumerate(cases):
+        why = fragtab.hygiene(cl, li[k])
+        if why:
+            hyg.append((tag, cl, why, li[k]))
+        if drv and fragtab.normalise(tag, li[k]) != fragtab.normalise(tag, lm[k]):
+            tie.append((tag, cl, li[k], lm[k]))
+    stats["tie_mismatches"] = len(tie)
+    stats["hygiene_failures"] = len(hyg)
+    stats["seconds"] = round(time.time() - t1, 1)
+    for tag, cl, why, lc in hyg[:1]:
+        m = ("; model=[%s]" % [x for x in tie if x[1] == cl][0][3][:300]) if [x for x in tie if x[1] == cl] else ""
+        ctx.violation("fragtab-state:" + ("stale-table" if "stale" in why else "bounds" if "lookup" in why else "phantom-table"),
+                      "sqfs_frag_table_t (%s): %s; impl=[%s]%s" % (tag, why, lc[:300], m),
+                      dict(kind="fragtab", cases=[[tag, cl]], impl=lc[:3000]))
+        broke = True
+    if tie and not hyg:
+        tag, cl, lc, lmm = tie[0]
+        ops = cl.split()[1:]
+        d = [(o, a, b) for o, a, b in zip(ops, lc.split(), lmm.split()) if a != b][:3]
+        ctx.tie_broken.append("C08 fragment-table tie")
+        ctx.violation("tie-fragtab", "correspondence FragTableModel.v vs lib/sqfs/src/frag_table.c broken (%d cases), e.g. (%s) "
+                      "op/impl/model %s" % (len(tie), tag, d),
+                      dict(kind="fragtab", cases=[[x[0], x[1]] for x in tie[:3]], impl=lc[:3000], model=lmm[:3000],
+                           correspondence="props/C08: ft_read / ft_lookup / ft_get_size / ft_append / ft_set / ft_write "
+                                          "(extracted) = sqfs_frag_table_* of the working tree, answer by answer"),
+                      no_input=True)
+        broke = True
+    return stats, broke
+
+
+# --------------------------------------------------------------------------------------------
 # init.c: the tools enable the byte comparison
 # --------------------------------------------------------------------------------------------
 
@@ -769,6 +858,9 @@ def run(ctx):
         "ASan/UBSan verdict on harness and tool runs",
         "props/C08/imgdata_driver.ml (xxHash32 re-implemented in OCaml, parsing/printing), props/C08/imgdata_stubs.c (system "
         "zlib/liblzma/liblz4/libzstd as decompressor oracle of the extracted reader specification)",
+        "props/C08/h_fragtab.c (in-memory sqfs_file_t with the error codes of the stdio file, toy run-length compressor), "
+        "props/C08/frag_driver.ml (the same toy compressor in OCaml, parsing/printing), props/C08/fragtab.py (image builder, "
+        "hygiene oracle)",
     ]
     ctx.assumptions += [
         "compressor contract (include/sqfs/compressor.h): compress b = Some c -> |c| < |b| and uncompress c n = Some b for every "
@@ -785,6 +877,10 @@ def run(ctx):
             found, stats = imgdata_leg(ctx, info, [(r["setseed"], bool(r.get("exact")))])
             ctx.coverage["evaluations"] = 1
             report_imgdata(ctx, found)
+            return
+        if r.get("kind") == "fragtab":
+            st, _ = fragtab_leg(ctx, info, [tuple(c) for c in r["cases"]])
+            ctx.coverage["evaluations"] = st["cases"]
             return
         if r.get("kind") == "tool" or "setseed" in r:
             found, stats = tool_search(ctx, info, [r["setseed"]], big=bool(r.get("big")))
@@ -835,6 +931,22 @@ def run(ctx):
         ctx.violation("init-c:" + re.sub(r"[^a-z]+", "-", p.lower())[:40],
                       "lib/common/src/writer/init.c: " + p, dict(kind="source check", file="lib/common/src/writer/init.c"),
                       no_input=True)
+        tie_or_proof_broken = True
+
+    # ---------------- fragment-table leg ----------------
+    n_ft = 360 if ctx.tier == "quick" else 6000
+    st_f, broke_f = fragtab_leg(ctx, info, fragtab.gen_cases(ctx.seed, n_ft))
+    ctx.log("fragment-table leg: %d cases (%d hostile, %d with two or more reads on one object), %d tie mismatches, "
+            "%d hygiene failures %.1fs" % (st_f["cases"], st_f["hostile"], st_f["two_reads_same_object"],
+                                           st_f["tie_mismatches"], st_f["hygiene_failures"], st_f.get("seconds", 0)))
+    ctx.coverage["fragment_table"] = dict(st_f, rule="generated fragment tables (1..1100 entries, 1..3 metadata blocks, toy "
+                                          "run-length compressor) with one hostile variant per early exit and error path of "
+                                          "sqfs_frag_table_read / sqfs_read_table, on a fresh object and after / before a good "
+                                          "load on the same object; append / set / write / re-read; every answer of the real "
+                                          "functions = extracted ft_* model; hygiene oracle on the implementation's answers")
+    ctx.coverage["evaluations"] += st_f["cases"]
+    ctx.coverage["traces_validated_against_impl"] += st_f["cases"] - st_f["tie_mismatches"]
+    if broke_f:
         tie_or_proof_broken = True
 
     # ---------------- image-data leg ----------------
@@ -907,3 +1019,4 @@ def report_component(ctx, info, res, allow_search):
 def setup():
     model_driver()
     imgdata_driver()
+    fragtab_driver()
